@@ -1,6 +1,7 @@
 (** Correspondence check for C16.  Depends on the model only (no proofs). *)
 From Coq Require Import String List NArith Bool.
 From Fabio Require Import Lib.Outcome Lib.Bytes Lib.Verdict Model.GrpcPool.
+From Fabio Require Model.Glob Model.Lookup.
 Import ListNotations.
 Local Open Scope N_scope.
 
@@ -19,17 +20,31 @@ Definition pool_has (p : list (url * N)) (kc : url * N) : bool :=
 Definition pool_eqb (a b : list (url * N)) : bool :=
   Nat.eqb (List.length a) (List.length b) && forallb (pool_has b) a && forallb (pool_has a) b.
 
-(* ---- the property's reading of "a route that matches", without the lookup algorithm:
-   every route filed under the host named by dsthost (or under no host) whose path is a
-   prefix of the method path is a candidate ---- *)
+(* ---- the property's reading of "a route that matches", without the lookup algorithm (no
+   host order, no route order): every route filed under a host key that matches the host named
+   by dsthost -- as the glob library matches it, or literally when glob matching is disabled;
+   case-insensitively, :80 removed -- or under no host, whose path is a prefix of the method
+   path, is a candidate; a host-less candidate is taken only when no host candidate exists ---- *)
 Definition key_allowed (noglob : bool) (host k : str) : bool :=
-  beq k [] || beq (norm_host k) (norm_host host).
-Definition candidates (t : table) (noglob : bool) (host path : str) : list (list url) :=
-  flat_map (fun hr => if key_allowed noglob host (fst hr)
+  let nk := Lookup.normalize_host k false in
+  let nh := Lookup.normalize_host host false in
+  if noglob then beq nk nh else Glob.gobwas_match nk nh.
+Definition cands_of (t : table) (path : str) (keyok : str -> bool) : list (list url) :=
+  flat_map (fun hr => if keyok (fst hr)
                       then map snd (filter (fun r : route => has_prefix path (fst r)) (snd hr))
                       else []) t.
+Definition host_cands (t : table) (noglob : bool) (host path : str) : list (list url) :=
+  cands_of t path (fun k => negb (beq k []) && key_allowed noglob host k).
+Definition hostless_cands (t : table) (path : str) : list (list url) :=
+  cands_of t path (fun k => beq k []).
 Definition no_candidate (cs : list (list url)) : bool :=
   forallb (fun ts => match ts with [] => true | _ => false end) cs.
+(* [u] is a legitimate backend / nobody is *)
+Definition routed_ok (t : table) (noglob : bool) (host path : str) (u : url) : bool :=
+  let hc := host_cands t noglob host path in
+  if no_candidate hc then existsb (mem u) (hostless_cands t path) else existsb (mem u) hc.
+Definition unrouted_ok (t : table) (noglob : bool) (host path : str) : bool :=
+  no_candidate (host_cands t noglob host path) && no_candidate (hostless_cands t path).
 
 Inductive lres := LTarget (u : url) | LNone | LErr.
 
@@ -155,7 +170,7 @@ Definition expected_cview (sc : script) : cview :=
 Definition check_case (c : case) : N :=
   match c with
   | CLookup t noglob m upath impl =>
-      if negb (keys_plain t) then v_disagree else
+      if negb (table_domain t) then v_disagree else
       let r := icpt_lookup t noglob m upath in
       let same := match r, impl with
                   | None, LErr => true
@@ -165,10 +180,10 @@ Definition check_case (c : case) : N :=
                   end in
       let spec := match m, upath with
                   | Some m, Some p =>
-                      let cs := candidates t noglob (dsthost m) p in
+                      host_domain (dsthost m) &&
                       match impl with
-                      | LTarget u => existsb (mem u) cs
-                      | LNone => no_candidate cs
+                      | LTarget u => routed_ok t noglob (dsthost m) p u
+                      | LNone => unrouted_ok t noglob (dsthost m) p
                       | LErr => false
                       end
                   | _, _ => match impl with LErr => true | _ => false end
@@ -181,7 +196,7 @@ Definition check_case (c : case) : N :=
       let spec := pool_spec urls0 (mkpobs None [] []) ops obs in
       verdict same spec None (existsb is_get ops && existsb is_tick ops)
   | CCall t noglob ci chosen bv cv =>
-      if negb (keys_plain t) then v_disagree else
+      if negb (table_domain t) then v_disagree else
       let (mb, mc) := call_outcome t noglob ci in
       let same := match mb, chosen, bv with
                   | Some (ts, b), Some u, Some b' => mem u ts && bview_eqb b b'
@@ -191,11 +206,11 @@ Definition check_case (c : case) : N :=
       let sc := ci_script ci in
       let spec := match chosen, bv, ci_upath ci with
                   | Some u, Some b', Some p =>
-                      existsb (mem u) (candidates t noglob (dsthost (ci_md ci)) p)
+                      host_domain (dsthost (ci_md ci)) && routed_ok t noglob (dsthost (ci_md ci)) p u
                       && bview_eqb b' (mkbview (ci_method ci) (ci_md ci) (if sc_mode sc =? 2 then [] else ci_msgs ci))
                       && cview_eqb cv (expected_cview sc)
                   | None, None, Some p =>
-                      no_candidate (candidates t noglob (dsthost (ci_md ci)) p)
+                      host_domain (dsthost (ci_md ci)) && unrouted_ok t noglob (dsthost (ci_md ci)) p
                       && (cv_code cv =? code_not_found) && beq (cv_msg cv) (bs "no route found")
                       && match cv_msgs cv with [] => true | _ => false end
                   | None, None, None => cv_code cv =? code_internal
